@@ -22,6 +22,10 @@ CLAIMS["C13"] = ("other", "error-purity summaries (path enumeration with nil-fac
   "Decides on every CFG path that a backend error exit has not touched the hand, that every backend error is returned or routed to the error callback, that the callback is wired to the table error event, and that the native backend never operates on or returns shared state. Remote backends and retry equivalence are not decided.",
   "DESIGN.md §4 C13", TRUST)
 
+CLAIMS["C03"] = ("other", "inter-procedural error-purity summaries (path enumeration with nil-facts and loop-aware fact invalidation) over seat-manager mutators and engine membership operations; sentinel coverage; provenance pairing; who-may-call/who-may-write",
+  "Decides the all-or-nothing clause structurally on every CFG path (no bookkeeping write or successful seat-manager change before any error exit), plus sentinel coverage, paired updates, capacity guards and writer sets. Two genuine partial-update defects that are not small to repair are recorded in known_findings.json; two were repaired by fix: commits. Agreement of the three views after arbitrary histories is not decided.",
+  "DESIGN.md §4 C03, §5 F3/F4/F4b/F12", TRUST)
+
 REASONS = {}
 
 checks = []
